@@ -1,4 +1,4 @@
-//@unit U19 props=C04,C05,C10,C13,C17,C18,C19 rlimit=100 NetcodeServer::{new, handle_connection_request, find_or_add_connect_token_entry, process_packet_internal, process_packet, generate_payload_packet, update_client, disconnect, update, set_max_clients, client_addr, user_data, is_client_connected} (renetcode/src/server.rs)
+//@unit U19 props=C04,C05,C07,C10,C13,C17,C18,C19 rlimit=100 NetcodeServer::{new, handle_connection_request, find_or_add_connect_token_entry, process_packet_internal, process_packet, generate_payload_packet, update_client, disconnect, update, set_max_clients, client_addr, user_data, is_client_connected} (renetcode/src/server.rs)
 #![feature(allocator_api)]
 #![allow(unused_imports, dead_code, unused_variables, unused_mut)]
 use vstd::prelude::*;
@@ -84,6 +84,23 @@ pub open spec fn session_nonce(datagram: Seq<u8>, q: u64) -> bool {
     q < 0x8000_0000_0000_0000 && exists|k: [u8; 32]| #[trigger] sealed_with(datagram, k, q)
 }
 pub uninterp spec fn sealed_under(datagram: Seq<u8>, key: [u8; 32]) -> bool;
+/// the sequence number a sealed datagram carries in the clear after its prefix byte (its AEAD nonce)
+pub uninterp spec fn datagram_sequence(datagram: Seq<u8>) -> u64;
+/// the replay window's verdict "already received" (the meaning proved for ReplayProtection::already_received in unit U2)
+pub open spec fn rp_received(rp: ReplayProtection, s: u64) -> bool {
+    ||| s as int + 256 <= rp.most_recent_sequence as int
+    ||| (rp.received_packet@[s as int % 256] != u64::MAX && rp.received_packet@[s as int % 256] >= s)
+}
+/// the replay window after recording `s` (the effect proved for ReplayProtection::advance_sequence in unit U2)
+pub open spec fn rp_advanced(a: ReplayProtection, b: ReplayProtection, s: u64) -> bool {
+    &&& b.most_recent_sequence == (if s > a.most_recent_sequence { s } else { a.most_recent_sequence })
+    &&& b.received_packet@ == a.received_packet@.update(s as int % 256, s)
+}
+/// C07: no session's receive timer moved
+pub open spec fn timers_same(a: Seq<Option<Connection>>, b: Seq<Option<Connection>>) -> bool {
+    a.len() == b.len() && forall|i: int| 0 <= i < a.len() && (#[trigger] a[i]) is Some && b[i] is Some
+        ==> b[i]->Some_0.last_packet_received_time == a[i]->Some_0.last_packet_received_time
+}
 pub uninterp spec fn token_authentic(data: [u8; 1024], protocol_id: u64, expire_timestamp: u64, xnonce: [u8; 24], key: [u8; 32]) -> bool;
 
 pub open spec fn id_connected(clients: Seq<Option<Connection>>, id: u64) -> bool {
@@ -218,6 +235,12 @@ impl<'a> Packet<'a> {
         ensures
             private_key is None ==> (r matches Ok(sp) ==> sp.1 is ConnectionRequest),
             r matches Ok(sp) ==> (!(sp.1 is ConnectionRequest) ==> private_key is Some && sealed_under(old(buffer)@, *private_key->Some_0)),
+            // ASSUMED here, proved by the same harness (window asked before the AEAD, advanced only after it accepted, with the decoded sequence; replay
+            // protection applies to exactly KeepAlive / Payload / Disconnect): such a packet comes out only if the window given did not hold its sequence
+            // number, and the window records it; for the other kinds the window is not touched
+            r matches Ok(sp) ==> (sp.1 is Payload || sp.1 is KeepAlive || sp.1 is Disconnect ==> sp.0 == datagram_sequence(old(buffer)@)
+                && (replay_protection matches Some(rp) ==> !rp_received(*rp, sp.0) && rp_advanced(*rp, *final(rp), sp.0))),
+            r matches Ok(sp) ==> (!(sp.1 is Payload || sp.1 is KeepAlive || sp.1 is Disconnect) ==> (replay_protection matches Some(rp) ==> *final(rp) == *rp)),
 //@endfn
 //@stub renetcode/src/packet.rs Packet::encode
 //@ret r
